@@ -14,14 +14,14 @@ CHECKS = {
     "C02": ("exploration", "4.C02", T_STORM + "; storage-invariant probe on every container after every step, including steps that threw and moved-from sources",
             "Seeded search. 'data() inside the object' is judged against the placement box of each container; N <= max_size() configurations only."),
     "C03": ("exploration", "4.C03", T_STORM + "; address-keyed lifetime registry at the element seam (construct over live, use of dead, double destroy) and live-set == union of containers after every step",
-            "Seeded search. Applies to the instrumented element flavours (trivially copyable types have no lifetime events)."),
+            "Seeded search. Registry-tracked element flavours, plus the allocator's own view (construct()/destroy() balance, variadic and C++03-style allocators) which also covers trivially destructible elements; a fault-free stage runs the engine built with -fno-exceptions."),
     "C04": ("exploration", "4.C04", T_STORM + "; allocator ledger (block, n, id) checked at every deallocate and after every step; per-operation allocate count against 'result fits in capacity'",
             "Seeded search. Exemptions are the ones the property text lists (shrink_to_fit, propagating unequal assignment, unequal non-propagating swap, mid-sequence single-pass insert, reserve(n > capacity))."),
     "C05": ("fault_enumeration", "4.C05", T_SWEEP + "; strong guarantee: snapshot before == state after the throw (size, values, no moved-from, capacity/data for the std::vector-specified subset, source of append(&&))",
-            "Every single allocator/constructor throw point of each sampled (state, operation, operands) cell is enumerated (capped at 48 per cell); the cells themselves are sampled by seed."),
+            "Every single allocator/constructor throw point of each sampled (state, operation, operands) cell is enumerated (capped at 48 per cell); the cells themselves are sampled by seed. One known finding (relocation by move through a throwing allocator construct()) is listed in known_findings.json."),
     "C06": ("fault_enumeration", "4.C06", T_SWEEP + "; basic guarantee: invariants, exactly size() live elements, clean ledger, then an 8-op fault-free epilogue and teardown",
             "Singles for all fault kinds, pairs (k, j <= 12) for roll-back paths, per sampled cell; plus fault storms for depth of state."),
-    "C07": ("exploration", "4.C07", T_STORM + "; expected get_allocator() identity from the propagation traits after every construction/assignment/swap; allocation traffic must use a participant's allocator",
+    "C07": ("exploration", "4.C07", T_STORM + "; expected get_allocator() identity from the propagation traits after every construction/assignment/swap; allocation traffic must use a participant's allocator, and every construct()/destroy() of a slot must go through the allocator of the container that owns the slot",
             "Seeded search over 8 propagation combinations x {NM,TM}, always-equal variants, SOCCC identity/toggling, equal/unequal instances. For always-equal allocators identity is not demanded (all instances compare equal)."),
     "C08": ("exploration", "4.C08", "deterministic simulation replayed in a second executor: seeded operation histories over two/three containers are evaluated by the compiler's constant evaluator (constexpr variables, g++ and clang++) and by the same interpreter at run time; any 'not a constant expression' diagnostic (UB, out-of-lifetime access, unreleased allocation) is a violation, and the per-step observation hashes (sizes, values, return values, comparable capacities) must agree",
             "No fault dimension (constant evaluation cannot throw). capacity() is compared only while comparable (excluded from a move/swap until the next shrink_to_fit), inlined() never. Trusts the compilers' constant evaluators as UB detectors."),
@@ -44,7 +44,7 @@ CHECKS = {
     "C17": ("exploration", "4.C17", "deterministic simulation replayed across builds: the same seeds (storm histories with fault plans) are executed by the engine compiled as C++11/14/17/20/23 with g++ and clang++ and with GCH_DISABLE_CONCEPTS; per-seed digests of the observable trace (contents, sizes, capacities, allocator ids, return values, exception kinds) must be identical, and every build also runs all oracles",
             "10 builds over 6 universes; clang 14 -std=c++2b is excluded (its constant-evaluation handling misreports inlined() even in a 10-line program without the harness, see DESIGN.md)."),
     "C18": ("fault_enumeration", "4.C18", T_SWEEP + "; any injected fault that ends in std::terminate is a violation; a call whose noexcept(expr) is true must execute zero may-throw seam events",
-            "Dynamic part only enumerates sampled cells; terminate is observed as worker death with the op and fault in flight recorded."),
+            "Dynamic part only enumerates sampled cells; terminate is observed as worker death with the op and fault in flight recorded. The iterator clause is an exhaustive operator grid over short containers (raw and class-type pointers). One known finding (declared-noexcept moves through a throwing allocator construct()) is listed in known_findings.json."),
 }
 
 NOT_APPLICABLE = [
